@@ -9,6 +9,7 @@ pub assume_specification[ usize::div_ceil ](a: usize, b: usize) -> (r: usize)
     requires b != 0
     ensures r as int == (a as int + b as int - 1) / (b as int);
 
+// module tree of the rodbus crate (contents are fragments; every item text comes from /repo)
 pub mod error {
 use vstd::prelude::*;
 use vstd::std_specs::convert::FromSpecImpl;
@@ -166,8 +167,8 @@ fn from(x: InvalidRange) -> (r: Self)
         RequestError::BadRequest(x.into())
     }
 }
-} // mod error
 
+}
 pub mod constants {
     pub mod coil {
     pub const ON: u16 = 0xFF00;
@@ -190,8 +191,8 @@ pub mod constants {
     pub const GATEWAY_PATH_UNAVAILABLE: u8 = 0x0A;
     pub const GATEWAY_TARGET_DEVICE_FAILED_TO_RESPOND: u8 = 0x0B;
     }
-}
 
+}
 pub mod exception {
 use vstd::prelude::*;
 use vstd::std_specs::convert::FromSpecImpl;
@@ -306,96 +307,8 @@ fn from(ex: ExceptionCode) -> (r: Self)
         }
     }
 }
-} // mod exception
 
-pub mod common {
-pub mod bits {
-use vstd::prelude::*;
-pub fn num_bytes_for_bits(count: u16) -> (r: usize)
-    ensures r as int == (count as int + 7) / 8, r <= 8192,
-{
-    (count as usize).div_ceil(8)
 }
-}
-pub mod function {
-use vstd::prelude::*;
-pub mod constants {
-pub const READ_COILS: u8 = 1;
-pub const READ_DISCRETE_INPUTS: u8 = 2;
-pub const READ_HOLDING_REGISTERS: u8 = 3;
-pub const READ_INPUT_REGISTERS: u8 = 4;
-pub const WRITE_SINGLE_COIL: u8 = 5;
-pub const WRITE_SINGLE_REGISTER: u8 = 6;
-pub const WRITE_MULTIPLE_COILS: u8 = 15;
-pub const WRITE_MULTIPLE_REGISTERS: u8 = 16;
-}
-#[derive(Copy, Clone, PartialEq)]
-#[repr(u8)]
-pub enum FunctionCode {
-    ReadCoils = constants::READ_COILS,
-    ReadDiscreteInputs = constants::READ_DISCRETE_INPUTS,
-    ReadHoldingRegisters = constants::READ_HOLDING_REGISTERS,
-    ReadInputRegisters = constants::READ_INPUT_REGISTERS,
-    WriteSingleCoil = constants::WRITE_SINGLE_COIL,
-    WriteSingleRegister = constants::WRITE_SINGLE_REGISTER,
-    WriteMultipleCoils = constants::WRITE_MULTIPLE_COILS,
-    WriteMultipleRegisters = constants::WRITE_MULTIPLE_REGISTERS,
-}
-
-// the eight public function codes of the Modbus application protocol (from the specification)
-pub open spec fn spec_fc_value(f: FunctionCode) -> u8 {
-    match f {
-        FunctionCode::ReadCoils => 1,
-        FunctionCode::ReadDiscreteInputs => 2,
-        FunctionCode::ReadHoldingRegisters => 3,
-        FunctionCode::ReadInputRegisters => 4,
-        FunctionCode::WriteSingleCoil => 5,
-        FunctionCode::WriteSingleRegister => 6,
-        FunctionCode::WriteMultipleCoils => 15,
-        FunctionCode::WriteMultipleRegisters => 16,
-    }
-}
-pub open spec fn spec_fc_of(v: u8) -> Option<FunctionCode> {
-    if v == 1 { Some(FunctionCode::ReadCoils) }
-    else if v == 2 { Some(FunctionCode::ReadDiscreteInputs) }
-    else if v == 3 { Some(FunctionCode::ReadHoldingRegisters) }
-    else if v == 4 { Some(FunctionCode::ReadInputRegisters) }
-    else if v == 5 { Some(FunctionCode::WriteSingleCoil) }
-    else if v == 6 { Some(FunctionCode::WriteSingleRegister) }
-    else if v == 15 { Some(FunctionCode::WriteMultipleCoils) }
-    else if v == 16 { Some(FunctionCode::WriteMultipleRegisters) }
-    else { None }
-}
-impl FunctionCode {
-pub const fn get_value(self) -> (r: u8)
-    ensures r == spec_fc_value(self),
-{
-        self as u8
-    }
-pub const fn as_error(self) -> (r: u8)
-    ensures r == spec_fc_value(self) | 0x80,
-{
-        self.get_value() | 0x80
-    }
-pub fn get(value: u8) -> (r: Option<Self>)
-    ensures r == spec_fc_of(value),
-{
-        match value {
-            constants::READ_COILS => Some(FunctionCode::ReadCoils),
-            constants::READ_DISCRETE_INPUTS => Some(FunctionCode::ReadDiscreteInputs),
-            constants::READ_HOLDING_REGISTERS => Some(FunctionCode::ReadHoldingRegisters),
-            constants::READ_INPUT_REGISTERS => Some(FunctionCode::ReadInputRegisters),
-            constants::WRITE_SINGLE_COIL => Some(FunctionCode::WriteSingleCoil),
-            constants::WRITE_SINGLE_REGISTER => Some(FunctionCode::WriteSingleRegister),
-            constants::WRITE_MULTIPLE_COILS => Some(FunctionCode::WriteMultipleCoils),
-            constants::WRITE_MULTIPLE_REGISTERS => Some(FunctionCode::WriteMultipleRegisters),
-            _ => None,
-        }
-    }
-}
-} // mod function
-} // mod common
-
 pub mod types {
 use vstd::prelude::*;
 use crate::error::*;
@@ -654,8 +567,98 @@ pub fn next(&mut self) -> (r: Option<Indexed<bool>>)
         }
     }
 }
-} // mod types
 
+}
+
+pub mod common {
+    pub mod bits {
+use vstd::prelude::*;
+pub fn num_bytes_for_bits(count: u16) -> (r: usize)
+    ensures r as int == (count as int + 7) / 8, r <= 8192,
+{
+    (count as usize).div_ceil(8)
+}
+
+    }
+    pub mod function {
+use vstd::prelude::*;
+pub mod constants {
+pub const READ_COILS: u8 = 1;
+pub const READ_DISCRETE_INPUTS: u8 = 2;
+pub const READ_HOLDING_REGISTERS: u8 = 3;
+pub const READ_INPUT_REGISTERS: u8 = 4;
+pub const WRITE_SINGLE_COIL: u8 = 5;
+pub const WRITE_SINGLE_REGISTER: u8 = 6;
+pub const WRITE_MULTIPLE_COILS: u8 = 15;
+pub const WRITE_MULTIPLE_REGISTERS: u8 = 16;
+}
+#[derive(Copy, Clone, PartialEq)]
+#[repr(u8)]
+pub enum FunctionCode {
+    ReadCoils = constants::READ_COILS,
+    ReadDiscreteInputs = constants::READ_DISCRETE_INPUTS,
+    ReadHoldingRegisters = constants::READ_HOLDING_REGISTERS,
+    ReadInputRegisters = constants::READ_INPUT_REGISTERS,
+    WriteSingleCoil = constants::WRITE_SINGLE_COIL,
+    WriteSingleRegister = constants::WRITE_SINGLE_REGISTER,
+    WriteMultipleCoils = constants::WRITE_MULTIPLE_COILS,
+    WriteMultipleRegisters = constants::WRITE_MULTIPLE_REGISTERS,
+}
+
+// the eight public function codes of the Modbus application protocol (from the specification)
+pub open spec fn spec_fc_value(f: FunctionCode) -> u8 {
+    match f {
+        FunctionCode::ReadCoils => 1,
+        FunctionCode::ReadDiscreteInputs => 2,
+        FunctionCode::ReadHoldingRegisters => 3,
+        FunctionCode::ReadInputRegisters => 4,
+        FunctionCode::WriteSingleCoil => 5,
+        FunctionCode::WriteSingleRegister => 6,
+        FunctionCode::WriteMultipleCoils => 15,
+        FunctionCode::WriteMultipleRegisters => 16,
+    }
+}
+pub open spec fn spec_fc_of(v: u8) -> Option<FunctionCode> {
+    if v == 1 { Some(FunctionCode::ReadCoils) }
+    else if v == 2 { Some(FunctionCode::ReadDiscreteInputs) }
+    else if v == 3 { Some(FunctionCode::ReadHoldingRegisters) }
+    else if v == 4 { Some(FunctionCode::ReadInputRegisters) }
+    else if v == 5 { Some(FunctionCode::WriteSingleCoil) }
+    else if v == 6 { Some(FunctionCode::WriteSingleRegister) }
+    else if v == 15 { Some(FunctionCode::WriteMultipleCoils) }
+    else if v == 16 { Some(FunctionCode::WriteMultipleRegisters) }
+    else { None }
+}
+impl FunctionCode {
+pub const fn get_value(self) -> (r: u8)
+    ensures r == spec_fc_value(self),
+{
+        self as u8
+    }
+pub const fn as_error(self) -> (r: u8)
+    ensures r == spec_fc_value(self) | 0x80,
+{
+        self.get_value() | 0x80
+    }
+pub fn get(value: u8) -> (r: Option<Self>)
+    ensures r == spec_fc_of(value),
+{
+        match value {
+            constants::READ_COILS => Some(FunctionCode::ReadCoils),
+            constants::READ_DISCRETE_INPUTS => Some(FunctionCode::ReadDiscreteInputs),
+            constants::READ_HOLDING_REGISTERS => Some(FunctionCode::ReadHoldingRegisters),
+            constants::READ_INPUT_REGISTERS => Some(FunctionCode::ReadInputRegisters),
+            constants::WRITE_SINGLE_COIL => Some(FunctionCode::WriteSingleCoil),
+            constants::WRITE_SINGLE_REGISTER => Some(FunctionCode::WriteSingleRegister),
+            constants::WRITE_MULTIPLE_COILS => Some(FunctionCode::WriteMultipleCoils),
+            constants::WRITE_MULTIPLE_REGISTERS => Some(FunctionCode::WriteMultipleRegisters),
+            _ => None,
+        }
+    }
+}
+
+    }
+}
 } // verus!
 fn main() {}
 
